@@ -120,10 +120,11 @@ def bad_value(bad, y, sd, he):
 def dump_real(fl):
     n = fl.Xn + 1
     rows = []
+    S = np.asarray(fl.S).reshape(np.shape(fl.S)[0], -1) if fl.noise_flag else None     # rank-tolerant: the dump must not fail where the logger did not
     for i in range(n):
         s2 = None
-        if fl.noise_flag and not math.isnan(fl.S[i, 0]):
-            s2 = Fraction(float(fl.S[i, 0])) ** 2
+        if fl.noise_flag and not math.isnan(S[i, 0]):
+            s2 = Fraction(float(S[i, 0])) ** 2
         rows.append([fl.X_orig[i].tolist(), fl.X[i].tolist(), float(fl.Y_orig[i, 0]), float(fl.Y[i, 0]), s2,
                      int(fl.n_evals[i, 0])])
     return dict(rows=rows, Xn=int(fl.Xn), X_max_idx=int(fl.X_max_idx), cap=int(fl.X_orig.shape[0]),
